@@ -1,14 +1,79 @@
-//! (rules to be transcribed)
+//! MT n90/n91/n92/n96/n99 and MT111/MT112 — documented rules (doc comments of validate_* and
+//! validate_network_rules in /repo/src/messages/mt111.rs, mt112.rs, mt19x.rs, mt29x.rs; SR2025 MTn92 C1, MTn96 C1)
+//!
+//! The layouts of the generator never write a "copy of (at least the mandatory) fields of the
+//! original message", so in every generated message the copy is absent.
 use super::*;
 
-pub fn expected(_v: &RView) -> Expect {
+/// cancellation reason codes allowed in field 79 of MT192 (constant table of mt192.rs)
+const MT192_79_CODES: &[&str] = &["AGNT", "AM09", "COVR", "CURR", "CUST", "CUTA", "DUPL", "FRAD", "TECH", "UPAY"];
+
+pub fn expected(v: &RView) -> Expect {
     let mut e = Expect::default();
-    // until transcribed: every code is undetermined (no verdict)
-    e.undet("*");
+    let f = v.everything();
+    // the copy of the original message's fields is not part of any layout: never present
+    let has_copy = false;
+    match v.mt {
+        // MTn92 C1 (C25): field 79 or a copy of at least the mandatory fields of the original message or both must be present
+        "192" | "292" => {
+            e.must_if(!has(&f, "79") && !has_copy, "C25");
+            if v.mt == "192" {
+                // T47 (MT192 only): "cancellation reason must be one of the allowed codes when using /CODE/ format in
+                // field 79"; the code is the 4-character word between the slashes at the start of the first line
+                if let Some(n) = get(&f, "79") {
+                    let lines = lines_of(n);
+                    let first = lines.first().cloned().unwrap_or_default();
+                    if let Some(rest) = first.strip_prefix('/') {
+                        match rest.find('/') {
+                            Some(i) if rest[..i].chars().count() == 4 => {
+                                e.must_if(!MT192_79_CODES.contains(&&rest[..i]), "T47");
+                            }
+                            // "/ABC/", "/ABCDE/", "/ABCD" (no closing slash), "//": whether that is "the /CODE/ format" is not settled
+                            _ => e.undet("T47"),
+                        }
+                    }
+                    // a code word at the start of a later line: the documentation only speaks of the first line
+                    if !e.must.contains("T47") && lines.iter().skip(1).any(|l| l.starts_with('/')) {
+                        e.undet("T47");
+                    }
+                }
+            }
+        }
+        // MTn96 C1 (C31): either field 79 or a copy of at least the mandatory fields of the message to which the
+        // answer relates, but not both, may be present
+        "196" | "296" => {
+            e.must_if(has(&f, "79") && has_copy, "C31");
+        }
+        // MT111, MT112, MTn90, MTn91, MTn99: no network validated rules
+        _ => {}
+    }
     e
 }
 
 pub fn content_hook(mt: &str, tag: &str, src: &mut crate::choice::Src) -> Option<String> {
-    let _ = (mt, tag, src);
-    None
+    match (mt, tag) {
+        ("192", "79") => Some(
+            src.pick(&[
+                "/AGNT/",
+                "/DUPL/\nSECOND LINE",
+                "/CUST/REQUESTED BY CUSTOMER",
+                "/UPAY/",
+                "/AM09/WRONG AMOUNT",
+                "/REJT/\nREASON",
+                "/ZZZZ/",
+                "/XXXX/TEXT\n/DUPL/",
+                "/agnt/",
+                "/ACC/INFORMATION",
+                "/DUPLI/",
+                "/DUPL",
+                "NARRATIVE TEXT",
+                "NARRATIVE\n/ZZZZ/",
+                ":20:COPY OF FIELDS",
+                "LINE ONE\nLINE TWO",
+                " /ZZZZ/",
+            ])
+            .to_string(),
+        ),
+        _ => None,
+    }
 }
